@@ -19,7 +19,7 @@ import (
 func init() {
 	Register("C35", &Info{
 		Run:   runC35,
-		Quick: 7500, Thor: 250000,
+		Quick: 7500, Thor: 1000000,
 		Rule: "a world = one server Config with a history of ticket operations: a real TLS 1.2 or 1.3 connection supplies genuine SessionState values (captured through Config.WrapSession), variants are derived by editing Extra/EarlyData; operations drawn per world: EncryptTicket/DecryptTicket round trip, single-bit flips at every region (IV, ciphertext, MAC), truncation/extension, explicit key sets and rotations through SetSessionTicketKeys (new key in front: old tickets still open; old key removed: no state), automatic key rotation under server clock jumps (1 h .. 30 d against the 7-day key lifetime), opening tickets with an Config.Clone() snapshots that must keep the key set they were taken with, independent AES-CTR + HMAC-SHA256 sealer keyed by TicketKeyFromBytes and sealing tickets independently for DecryptTicket, and finally a resumption through a forged ClientSessionState (drawn master secret patched into the state) that must resume with the supplied version/suite and equal exporters on both sides (and, when the supplied suite differs from the one sealed in the ticket, must not complete as a resumption under another suite); one world in six: a Config with the legacy SessionTicketKey field set, 1-3 tasks calling EncryptTicket concurrently with one SetSessionTicketKeys call under a scheduler that switches at every lock operation - afterwards the keys in force must be the installed ones; non-trivial = a ticket was decrypted or rejected after a mutation/rotation; distinct = (operation sequence, key history, clock jumps)",
 		Assumptions: []string{"the independent sealer follows the documented ticket format (16-byte IV, AES-128-CTR, HMAC-SHA256 over IV and ciphertext) with keys from TicketKeyFromBytes",
 			"automatic rotation: no claim between 6 and 8 days"},
